@@ -79,9 +79,9 @@ inductive Disc where
   | owned (k : Nat)        -- accessed only by the current owner of token k
   deriving DecidableEq, Repr
 
-/-- every access after construction obeys the discipline of its location -/
-def Conforms (tr : Trace) (pol : Nat → Disc) : Prop :=
-  ∀ (i : Nat) (e : Ev) (x : Nat) (w a : Bool), tr[i]? = some e → e.init = false → e.op.access = some (x, w, a) →
+/-- every access after construction to a location in `S` obeys the discipline of its location -/
+def Conforms (tr : Trace) (pol : Nat → Disc) (S : Nat → Prop) : Prop :=
+  ∀ (i : Nat) (e : Ev) (x : Nat) (w a : Bool), S x → tr[i]? = some e → e.init = false → e.op.access = some (x, w, a) →
     match pol x with
     | .immutable => w = false ∧ a = false
     | .atomic => a = true
@@ -97,10 +97,10 @@ structure InitFirst (tr : Trace) : Prop where
   single : ∀ (i j : Nat) (ei ej : Ev) (x : Nat) (wi ai wj aj : Bool), tr[i]? = some ei → tr[j]? = some ej →
     ei.op.access = some (x, wi, ai) → ej.op.access = some (x, wj, aj) → ei.init = true → ej.init = true → ei.tid = ej.tid
 
-/-- a data race: two accesses to one location by different goroutines, at least one a write, not
+/-- a data race on location `x`: two accesses by different goroutines, at least one a write, not
     both atomic, unordered by happens-before -/
-def Race (tr : Trace) (i j : Nat) : Prop :=
-  i < j ∧ ∃ (ei ej : Ev) (x : Nat) (wi ai wj aj : Bool), tr[i]? = some ei ∧ tr[j]? = some ej ∧
+def RaceOn (tr : Trace) (x i j : Nat) : Prop :=
+  i < j ∧ ∃ (ei ej : Ev) (wi ai wj aj : Bool), tr[i]? = some ei ∧ tr[j]? = some ej ∧
     ei.op.access = some (x, wi, ai) ∧ ej.op.access = some (x, wj, aj) ∧
     ei.tid ≠ ej.tid ∧ (wi = true ∨ wj = true) ∧ ¬(ai = true ∧ aj = true) ∧ ¬ HB tr i j
 
